@@ -7,7 +7,7 @@ import OpcuaModel.Model.Republish
     notif <known> <last> <next> <pending> <sub> <seq> <ndata>  → <last'> <next'> <pending'>
     rounds <subs> <pending> <event>…                 → <acks of request 1>/<acks of request 2>/…/<final pending> ; <subs'>
     reconnect <registry> <errkind> <step>…           → <action> <connected> <activeSubs> <loop> <registry'> | invalid
-    republish <avail> <queue> <nextSeq>              → delivered=<seqs> requested=<seqs> next=<n> outcome=<…> ok=<0|1>
+    republish <avail> <queue> <nextSeq>              → delivered=<seqs> requested=<seqs> next=<n> outcome=<…> ok=<0|1> acks=<seqs queued for acknowledgement>
                                                        (server answering from its retransmission queue)
   lists are comma separated, `-` is the empty list; an ack is `sub:seq`, results are
   letters o (Good) i (BadSubscriptionIDInvalid) u (BadSequenceNumberUnknown) x (other);
@@ -140,7 +140,10 @@ def handle : List String → String
       let oc := match r.outcome with
         | .done => "done" | .failSession => "failSession" | .failSub => "failSub"
         | .failOther => "failOther" | .running => "running"
-      s!"delivered={sh r.delivered} requested={sh r.requested} next={r.nextSeq} outcome={oc} ok={if Opcua.Rep.republishOk r.outcome then 1 else 0}"
+      -- acks: what the loop queues in pendingAcks for a registered subscription with nothing pending
+      let c' := Opcua.Rep.intoClient ⟨[], [⟨1, 0, n⟩]⟩ 1 r
+      let acks := (requestAcks c').map (·.seq)
+      s!"delivered={sh r.delivered} requested={sh r.requested} next={r.nextSeq} outcome={oc} ok={if Opcua.Rep.republishOk r.outcome then 1 else 0} acks={sh acks}"
     | _, _, _ => "bad-op"
   | _ => "bad-op"
 
